@@ -2861,6 +2861,9 @@ func (e *Eval) loadElem(fr *frame, x ssa.Instruction, el *ElemRef, st State) AV 
 			return b.Elems[c]
 		}
 		// unknown index: join of all elements
+		if fr.loop != nil {
+			fr.loop.imprecise = true // an iteration-by-iteration evaluation would know which element
+		}
 		var cur AV
 		for _, v := range b.Elems {
 			cur = joinAV(cur, v)
